@@ -5,7 +5,7 @@ package go9p
 type vxLogRec struct {
 	id    int
 	owner int // 1 or 2
-	typ   int // 1 or 2
+	typ   int // 1, 2 or 3 (3 shares bits with both)
 }
 
 func vxLogMatch(r vxLogRec, owner int, typ int) bool {
@@ -77,17 +77,17 @@ func vxH20Ring(N int, nops int) {
 	var kept, keptCopy [][]*Log // earlier Filter results and what they held when they were returned
 	for i := 0; i < nops; i++ {
 		if op := vxChoose("op", 4); op < 2 {
-			// owner A or B, symbolic type in {1,2}
+			// owner A or B, symbolic type in {1,2,3}: 3 shares bits with 1 and 2 and equals neither
 			typ := vxInt("type")
-			vxAssume(vxAll(typ >= 1, typ <= 2))
+			vxAssume(vxAll(typ >= 1, typ <= 3))
 			r := vxLogRec{id: len(logged), owner: 1 + op, typ: typ}
 			logged = append(logged, r)
 			l.Log(r.id, vxOwnerVal(r.owner), r.typ)
 		} else {
-			// owner nil or A, symbolic type in {0,1,2}
+			// owner nil or A, symbolic type in {0,1,2,3}
 			owner := op - 2
 			typ := vxInt("ftype")
-			vxAssume(vxAll(typ >= 0, typ <= 2))
+			vxAssume(vxAll(typ >= 0, typ <= 3))
 			res := l.Filter(vxOwnerVal(owner), typ)
 			vxCheckFilter(res, logged, owner, typ, N, false)
 			kept = append(kept, res)
@@ -101,7 +101,7 @@ func vxH20Ring(N int, nops int) {
 	}
 	owner := vxChoose("fowner", 3)
 	typ := vxInt("ftype")
-	vxAssume(vxAll(typ >= 0, typ <= 2))
+	vxAssume(vxAll(typ >= 0, typ <= 3))
 	res := l.Filter(vxOwnerVal(owner), typ)
 	vxCheckFilter(res, logged, owner, typ, N, true)
 	// a result that was returned stays what it was: later Log/Filter calls do not rewrite it
@@ -171,15 +171,44 @@ func vxH20Burst(N int, n int) {
 	l := NewLogger(N)
 	var logged []vxLogRec
 	for i := 0; i < n; i++ {
-		r := vxLogRec{id: i, owner: 1 + i%2, typ: 1 + (i/2)%2}
+		r := vxLogRec{id: i, owner: 1 + i%2, typ: 1 + (i/2)%3}
 		logged = append(logged, r)
 		l.Log(r.id, vxOwnerVal(r.owner), r.typ)
 	}
 	vxQuiesce()
 	owner := vxChoose("fowner", 3)
 	typ := vxInt("ftype")
-	vxAssume(vxAll(typ >= 0, typ <= 2))
+	vxAssume(vxAll(typ >= 0, typ <= 3))
 	res := l.Filter(vxOwnerVal(owner), typ)
 	vxCheckFilter(res, logged, owner, typ, N, true)
+	vxReach("final")
+}
+
+// H20.conc: several goroutines call Filter at the same time with different arguments; each gets the answer to its own
+// question. The log is quiescent, so every answer is the converged one.
+func vxH20FilterConc(N int, n int, callers int) {
+	l := NewLogger(N)
+	var logged []vxLogRec
+	for i := 0; i < n; i++ {
+		r := vxLogRec{id: i, owner: 1 + i%2, typ: 1 + (i/2)%3}
+		logged = append(logged, r)
+		l.Log(r.id, vxOwnerVal(r.owner), r.typ)
+	}
+	vxQuiesce()
+	type ans struct {
+		owner, typ int
+		res        []*Log
+	}
+	out := make(chan ans, callers)
+	for c := 0; c < callers; c++ {
+		owner, typ := c%3, (c+1)%4
+		go func() {
+			out <- ans{owner, typ, l.Filter(vxOwnerVal(owner), typ)}
+		}()
+	}
+	for c := 0; c < callers; c++ {
+		a := <-out
+		vxCheckFilter(a.res, logged, a.owner, a.typ, N, true)
+	}
 	vxReach("final")
 }
